@@ -70,6 +70,7 @@ class MEngine:
     def run(self, fn, args, extra_locals=None, max_paths=4000):
         m = mir.Machine(self.fns, self.src_root, self.models, max_paths=max_paths)
         res = m.run(fn, args, extra_locals=extra_locals)
+        self.last_machine = m
         self.touched |= m.touched
         for f in m.touched:
             self.ctx.functions.append(f)
